@@ -25,7 +25,7 @@ func init() { register(&Check{ID: "C19", Run: runC19}) }
 
 var c19Chars = []string{"a", "é", "€", "٣", "0", "1", "x", "-", "\"", "`", " ", "\t", "\n", "\r", "#", "/", "=", "!", "(", ":"}
 
-var c19Seps = []string{" ", "\t", "\n", "\r\n", "  ", "\n\n", "# c\n", "// c\n", " # é\r\n\t", "# c\n \t# d\n", "// c\n\n  // d\n// e\n"}
+var c19Seps = []string{" ", "\t", "\n", "\r\n", "  ", "\n\n", "# c\n", "// c\n", " # é\r\n\t", "# c\n \t# d\n", "// c\n\n  // d\n// e\n", "# d:\\x\\\n", " // c \\\n\t"} // the last two: comment text ending in a backslash
 
 var c19Lexemes = []string{
 	"script", "raw", "text", "movement", "mart", "mapscripts", "format", "var", "flag", "defeated", "TRUE", "FALSE", "true", "if", "else", "elif", "do", "while", "break", "continue", "switch", "case", "default", "global", "local", "poryswitch", "const", "value", "moves",
@@ -481,7 +481,7 @@ func runC19(tier string) int {
 		"gaps are taken between tokens as the lexer itself reports them; a string-type prefix and the quote after it are one lexical unit; the white space and comments between the parts of a multi-part string are inside one token",
 		"inputs on which the lexer panics are counted and left to C18")
 	return r.Finish(r.Get("evaluations"), r.Get("nontrivial"),
-		"(a) every string of <= N characters over 20 characters (letters incl. multi-byte, a multi-byte non-letter, ASCII and non-ASCII digits, x, -, quote, backtick, space, tab, LF, CR, #, /, =, !, (, :); (b) every sequence of <= M lexemes from a 65-lexeme alphabet (all keywords, identifiers, numbers incl. hex/negative/leading zero, strings, typed string, raw string, every operator and delimiter, illegal characters) in 5 layouts; each input: position oracle on every token, then every gap replaced by each of 11 separators (spaces, tab, LF, CRLF, blank line, # and // comments, runs of several comment lines with indentation) and re-lexed; (c) C16's corpus programs compiled under every single-gap layout change; (d) tokens after K lines / K one-byte / K two-byte characters for every K <= 300 (thorough 5000) and around every power of two up to 2^17 (thorough 2^21); (e) every program of the control-flow families (C01 / C03 / C04 bounds) rewritten on one line, one token group per line, with a comment and CRLF at each line end, with blank and comment lines between all lines, and with every dispensable white space removed, compiled and compared, and the same for the data families (C06 hoisting files, C08 mapscripts statements, file-level programs, reduced bounds); (f) one representative of every Unicode general category, every non-ASCII white-space rune, combining marks, astral runes and the runes of the compiler's own source, singly and in pairs, in 9 lexical contexts; non-trivial = >= 2 tokens and a line break or multi-byte character")
+		"(a) every string of <= N characters over 20 characters (letters incl. multi-byte, a multi-byte non-letter, ASCII and non-ASCII digits, x, -, quote, backtick, space, tab, LF, CR, #, /, =, !, (, :); (b) every sequence of <= M lexemes from a 65-lexeme alphabet (all keywords, identifiers, numbers incl. hex/negative/leading zero, strings, typed string, raw string, every operator and delimiter, illegal characters) in 5 layouts; each input: position oracle on every token, then every gap replaced by each of 13 separators (spaces, tab, LF, CRLF, blank line, # and // comments, runs of several comment lines with indentation, comments whose text ends in a backslash) and re-lexed; (c) C16's corpus programs compiled under every single-gap layout change; (d) tokens after K lines / K one-byte / K two-byte characters for every K <= 300 (thorough 5000) and around every power of two up to 2^17 (thorough 2^21); (e) every program of the control-flow families (C01 / C03 / C04 bounds) rewritten on one line, one token group per line, with a comment and CRLF at each line end, with blank and comment lines between all lines, and with every dispensable white space removed, compiled and compared, and the same for the data families (C06 hoisting files, C08 mapscripts statements, file-level programs, reduced bounds); (f) one representative of every Unicode general category, every non-ASCII white-space rune, combining marks, astral runes and the runes of the compiler's own source, singly and in pairs, in 9 lexical contexts; non-trivial = >= 2 tokens and a line break or multi-byte character")
 }
 
 // tightLayout removes every piece of white space that is not needed to keep two word-like tokens apart
